@@ -56,6 +56,7 @@ let check_line (line : string) : unit =
       let st = ref empty_mstate in
       let registered = ref [] (* register calls so far, in order, with repeats *) in
       let present : (int, unit) Hashtbl.t = Hashtbl.create 8 in
+      let holds : (int * bool) list ref = ref [] in
       let stop = ref false in
       List.iteri (fun i o ->
           if not !stop then begin
@@ -69,6 +70,8 @@ let check_line (line : string) : unit =
             (* ---- oracles on the REAL outcome, from the history alone ---- *)
             (match o with
              | MReg ty -> registered := !registered @ [ty]
+             | MHold (ty, excl) -> if r = "u" then holds := (int_of_n ty, excl) :: !holds
+             | MDropHolds -> holds := []
              | MIns (ty, _) -> if r = "u" then Hashtbl.replace present (int_of_n ty) ()
              | MRem ty -> if String.length r > 0 && r.[0] = 'v' then Hashtbl.remove present (int_of_n ty)
              | MGet ty | MGetMut ty ->
@@ -83,6 +86,13 @@ let check_line (line : string) : unit =
                  end else if r = "n" then (if reg then oracle "get_iff_registered" i)
                  else if r = "pc" then (if not (List.mem ty bad) then oracle "bad_cast_only" i)
              | MIter | MIterMut ->
+                 (* C08: the iterators borrow like any fetch: a live conflicting guard on a resource they reach makes them
+                    panic (never skip it, never hand out an aliasing guard); without a conflict they do not panic *)
+                 let reach = List.filter (fun k -> Hashtbl.mem present k) (List.map int_of_n (dedup_first [] !registered)) in
+                 let conflict = List.exists (fun (k, excl) -> List.mem k reach && (excl || o = MIterMut)) !holds in
+                 let bad_cast = List.exists (fun k -> List.mem (n_of_int k) bad) reach in
+                 if conflict && not bad_cast && r <> "pb" then oracle "iter_borrow_discipline" i;
+                 if (not conflict) && r = "pb" then oracle "iter_borrow_discipline" i;
                  if String.length r > 0 && r.[0] = 'l' then begin
                    let items = if r = "l-" then [] else List.map (fun it -> match split_on '/' it with
                        | [a; b; _] -> (int_of_string a, int_of_string b) | _ -> (-1, -1)) (split_on ',' (String.sub r 1 (String.length r - 1))) in
